@@ -1,0 +1,131 @@
+//go:build verif
+
+package app
+
+// Verification hooks (build tag verif): every container records the component calls it
+// makes during Start and Close. When a container's life cycle is complete (Start failed, or
+// Close returned) the run is appended to the NDJSON file named by $VERIF_APP_TRACE in the
+// format spec/app/AppContainerTrace.tla validates (Config line, one line per call,
+// StartReturn / CloseReturn). Without the environment variable nothing is recorded.
+
+import (
+	"encoding/json"
+	"os"
+	"sync"
+)
+
+type verifAppRun struct {
+	kinds    []string
+	events   []map[string]any
+	failKind string
+	failIdx  int
+	closeErr map[int]bool
+	started  bool
+}
+
+var (
+	verifAppMu   sync.Mutex
+	verifAppRuns = map[*App]*verifAppRun{}
+	verifAppFile = os.Getenv("VERIF_APP_TRACE")
+)
+
+func verifAppStart(app *App) {
+	if verifAppFile == "" {
+		return
+	}
+	r := &verifAppRun{failKind: "none", closeErr: map[int]bool{}}
+	for _, c := range app.components {
+		if _, ok := c.(ComponentRunnable); ok {
+			r.kinds = append(r.kinds, "runnable")
+		} else {
+			r.kinds = append(r.kinds, "plain")
+		}
+	}
+	verifAppMu.Lock()
+	verifAppRuns[app] = r
+	verifAppMu.Unlock()
+}
+
+func verifAppGet(app *App) *verifAppRun {
+	if verifAppFile == "" {
+		return nil
+	}
+	verifAppMu.Lock()
+	defer verifAppMu.Unlock()
+	return verifAppRuns[app]
+}
+
+func verifAppCall(app *App, op string, i int) {
+	if r := verifAppGet(app); r != nil {
+		r.events = append(r.events, map[string]any{"ev": op, "i": i + 1})
+	}
+}
+
+func verifAppFail(app *App, op string, i int) {
+	if r := verifAppGet(app); r != nil {
+		r.failKind, r.failIdx = op, i+1
+	}
+}
+
+func verifAppCloseErr(app *App, i int) {
+	if r := verifAppGet(app); r != nil && r.started {
+		r.closeErr[i+1] = true
+	}
+}
+
+func verifAppStartReturn(app *App, err *error) {
+	r := verifAppGet(app)
+	if r == nil {
+		return
+	}
+	kind := "none"
+	if *err != nil {
+		kind = r.failKind
+		if kind == "none" {
+			kind = "other"
+		}
+	}
+	r.events = append(r.events, map[string]any{"ev": "StartReturn", "err": kind})
+	if *err != nil {
+		verifAppFlush(app, r, false)
+		return
+	}
+	r.started = true
+}
+
+func verifAppCloseReturn(app *App) {
+	r := verifAppGet(app)
+	if r == nil || !r.started {
+		return
+	}
+	errs := make([]bool, len(r.kinds))
+	for i := range errs {
+		errs[i] = r.closeErr[i+1]
+	}
+	r.events = append(r.events, map[string]any{"ev": "CloseReturn", "errs": errs})
+	verifAppFlush(app, r, true)
+}
+
+func verifAppFlush(app *App, r *verifAppRun, closed bool) {
+	comps := make([]map[string]any, len(r.kinds))
+	for i, k := range r.kinds {
+		comps[i] = map[string]any{"kind": k, "closeErr": closed && r.closeErr[i+1]}
+	}
+	lines := []map[string]any{{"ev": "Config", "comps": comps, "fail": map[string]any{"kind": r.failKind, "idx": r.failIdx}}}
+	lines = append(lines, r.events...)
+	var buf []byte
+	for _, l := range lines {
+		b, _ := json.Marshal(l)
+		buf = append(buf, b...)
+		buf = append(buf, '\n')
+	}
+	verifAppMu.Lock()
+	defer verifAppMu.Unlock()
+	delete(verifAppRuns, app)
+	f, err := os.OpenFile(verifAppFile, os.O_APPEND|os.O_CREATE|os.O_WRONLY, 0o644)
+	if err != nil {
+		return
+	}
+	defer f.Close()
+	_, _ = f.Write(buf) // one write per run: runs of concurrent containers (and test processes) do not interleave
+}
